@@ -1269,6 +1269,14 @@ func (tb *Table) fcmp(op Op, x, y *T) *T {
 			return tb.BoolC(a == b)
 		}
 	}
+	if x == y {
+		// same term on both sides: x < x is false; x <= x and x == x hold iff x is not NaN
+		// (the Go idiom `x != x` for "is NaN" becomes the cheap predicate fp.isNaN)
+		if op == OFLt {
+			return tb.ff
+		}
+		return tb.Not(tb.FIsNaN(x))
+	}
 	return tb.mk(op, Bool, x, y, nil, 0, "")
 }
 func (tb *Table) FLt(x, y *T) *T { return tb.fcmp(OFLt, x, y) }
